@@ -10,6 +10,9 @@ The framing half of the independent implementation is `Zlib/Inflate.lean`
 (RFC 1950/1951) and `Zlib/Stored.lean`; it is tied by execution (see the tie).
 -/
 import Proofs.ImplV2Lists
+import Proofs.ImplV1Lists
+import Proofs.ImplV1Beat
+import Proofs.InflateStored
 
 namespace EngineModel.Properties.C02
 open EngineModel EngineModel.Codec EngineModel.V2 EngineModel.Impl.V2
@@ -81,5 +84,127 @@ start (LE double), end (LE double), two flags, ARGB. -/
 example : loops.enc [⟨[0x41], 0x3ff0000000000000, 0x4000000000000000, 1, 0, ⟨255, 1, 2, 3⟩⟩] =
     [1, 0, 0, 0, 0, 0, 0, 0,  1, 0x41,  0, 0, 0, 0, 0, 0, 0xf0, 0x3f,  0, 0, 0, 0, 0, 0, 0, 0x40,  1, 0,  255, 1, 2, 3] := by
   decide
+
+/-! ## schema 1.x: the six codecs of performance_data_format.cpp against the Spec of Format/V1.lean -/
+section V1
+open EngineModel.V1Proofs
+
+theorem ofOpt_eq_ofSpec {α} (o : Option α) : ofOpt o = ofSpec o := by cases o <;> rfl
+
+/-! ### decoders -/
+
+theorem C02_v1_track_decode_agrees (bs : Bytes) : Impl.V1.decodeTrack bs = ofSpec (V1.decodeTrack bs) := by
+  rw [V1Proofs.decodeTrack_eq, ofOpt_eq_ofSpec]
+theorem C02_v1_ovw_decode_agrees (bs : Bytes) : Impl.V1.decodeOvw bs = ofSpec (V1.decodeOvw bs) := by
+  rw [V1Proofs.decodeOvw_eq, ofOpt_eq_ofSpec]
+theorem C02_v1_hires_decode_agrees (bs : Bytes) : Impl.V1.decodeHires bs = ofSpec (V1.decodeHires bs) := by
+  rw [V1Proofs.decodeHires_eq, ofOpt_eq_ofSpec]
+theorem C02_v1_cues_decode_agrees (bs : Bytes) : Impl.V1.decodeCues bs = ofSpec (V1.decodeCues bs) := by
+  rw [V1Proofs.decodeCues_eq, ofOpt_eq_ofSpec]
+theorem C02_v1_loops_decode_agrees (bs : Bytes) : Impl.V1.decodeLoops bs = ofSpec (V1.decodeLoops bs) := by
+  rw [V1Proofs.decodeLoops_eq, ofOpt_eq_ofSpec]
+
+/- Full statement for beat data (FALSE of the code, see the counterexample below):
+     ∀ bs, Impl.V1.decodeBeat bs = ofSpec (V1.decodeBeat bs)
+   `beat_data::decode` wraps the two grids in `try … catch (invalid_argument)`: a payload with a
+   well-formed first grid followed by fewer than 8 zero bytes (second count missing) is accepted as
+   "no grids".  `missingSecondGrid` (decidable) is exactly that family. -/
+
+/-- Everything the Spec accepts, the library decodes to the same value (no restriction). -/
+theorem C02_v1_beat_decode_agrees_of_spec (bs : Bytes) (v : Impl.V1.Beat) (h : V1.decodeBeat bs = some v) :
+    Impl.V1.decodeBeat bs = .ok v := decodeBeat_of_spec bs v h
+
+/-- Outside the `missingSecondGrid` family the Model decoder is the Spec decoder. -/
+theorem C02_v1_beat_decode_agrees_partial (bs : Bytes) (h : missingSecondGrid bs = false) :
+    Impl.V1.decodeBeat bs = ofSpec (V1.decodeBeat bs) := by
+  rw [decodeBeat_eq bs h, ofOpt_eq_ofSpec]
+
+/-- non-vacuity: a payload the library itself writes (no grids, no trailer) is outside the family -/
+example : missingSecondGrid (List.replicate 16 0 ++ [1] ++ List.replicate 16 0) = false := by decide
+
+/-- The 73-byte witness: header, one grid of two markers, nothing else. -/
+def beatMissingSecondGrid : Bytes :=
+  [0,0,0,0,0,0,0,0, 0,0,0,0,0,0,0,0, 1,  0,0,0,0,0,0,0,2,
+   0,0,0,0,0,0,0,0, 0,0,0,0,0,0,0,0, 4,0,0,0, 0,0,0,0,
+   0,0,0,0,0,0,0x59,0x40, 4,0,0,0,0,0,0,0, 0,0,0,0, 0,0,0,0]
+
+theorem C02_v1_beat_decode_agrees_counterexample :
+    Impl.V1.decodeBeat beatMissingSecondGrid = .ok ⟨none, none, [], []⟩ ∧
+    V1.decodeBeat beatMissingSecondGrid = none := by
+  decide
+
+/-! ### encoders: the Model writes exactly the Spec's bytes, or rejects exactly when the Spec does -/
+
+theorem agree_of {r : Res Bytes} {o : Option Bytes}
+    (h : (∃ b0, o = some b0 ∧ r = .ok b0) ∨ (o = none ∧ ∃ e, r = .throw e)) (b : Bytes) :
+    r = .ok b ↔ o = some b := by
+  rcases h with ⟨b0, ho, hr⟩ | ⟨ho, e, hr⟩
+  · rw [ho, hr]; constructor
+    · intro h; injection h with h; rw [h]
+    · intro h; injection h with h; rw [h]
+  · rw [ho, hr]; constructor
+    · intro h; cases h
+    · intro h; cases h
+
+theorem C02_v1_track_encode_agrees (v : Impl.V1.Track) (b : Bytes) :
+    Impl.V1.encodeTrack v = .ok b ↔ V1.encodeTrack v = some b :=
+  agree_of (Or.inl ⟨_, rfl, encodeTrack_ok v⟩) b
+
+theorem C02_v1_ovw_encode_agrees (v : Impl.V1.Wave) (b : Bytes) :
+    Impl.V1.encodeOvw v = .ok b ↔ V1.encodeOvw v = some b :=
+  agree_of (Or.inl (encodeOvw_ok v)) b
+
+theorem C02_v1_hires_encode_agrees (v : Impl.V1.Wave) (b : Bytes) :
+    Impl.V1.encodeHires v = .ok b ↔ V1.encodeHires v = some b :=
+  agree_of (Or.inl (encodeHires_ok v)) b
+
+theorem C02_v1_loops_encode_agrees (v : Impl.V1.Loops) (b : Bytes) :
+    Impl.V1.encodeLoops v = .ok b ↔ V1.encodeLoops v = some b := by
+  apply agree_of
+  cases h : v.all V1.loopSlotOk with
+  | true => exact Or.inl ⟨_, by simp [V1.encodeLoops, h], encodeLoops_ok v h⟩
+  | false => exact Or.inr ⟨by simp [V1.encodeLoops, h], encodeLoops_reject v h⟩
+
+theorem C02_v1_cues_encode_agrees (v : Impl.V1.Cues) (b : Bytes) :
+    Impl.V1.encodeCues v = .ok b ↔ V1.encodeCues v = some b := by
+  apply agree_of
+  by_cases h : v.cues.length = 8 ∧ v.cues.all V1.cueSlotOk = true
+  · exact Or.inl ⟨_, by simp only [V1.encodeCues, h, and_self, if_true]; rfl, encodeCues_ok v h.1 h.2⟩
+  · exact Or.inr ⟨by simp only [V1.encodeCues, h, if_false], encodeCues_reject v h⟩
+
+theorem C02_v1_beat_encode_agrees (v : Impl.V1.Beat) (b : Bytes) :
+    Impl.V1.encodeBeat v = .ok b ↔ V1.encodeBeat v = some b := by
+  apply agree_of
+  by_cases h : V1.gridOk v.dflt = true ∧ V1.gridOk v.adj = true
+  · exact Or.inl ⟨_, by simp only [V1.encodeBeat, h.1, h.2, Bool.and_self, if_true]; rfl, encodeBeat_ok v h.1 h.2⟩
+  · refine Or.inr ⟨?_, _, encodeBeat_reject v h⟩
+    have : (V1.gridOk v.dflt && V1.gridOk v.adj) = false := by
+      cases h1 : V1.gridOk v.dflt <;> cases h2 : V1.gridOk v.adj <;> simp_all
+    simp [V1.encodeBeat, this]
+
+/-- A pinned 1.x layout: track data is sample rate (BE double), sample count (BE int64),
+average loudness (BE double), key (BE int32); an absent field is zero. -/
+example : V1.encodeTrack ⟨some 0x40e5888000000000, some 0x0102030405060708, none, some 7⟩ =
+    some [0x40, 0xe5, 0x88, 0x80, 0, 0, 0, 0,  1, 2, 3, 4, 5, 6, 7, 8,  0, 0, 0, 0, 0, 0, 0, 0,  0, 0, 0, 7] := by
+  decide
+
+end V1
+
+/-! ## the framing half of the independent implementation
+
+`Zlib/Inflate.lean` (RFC 1950/1951 decoder) inverts `Zlib/Stored.lean` (stored-block encoder) on
+every byte list — multi-block above 65535 bytes, Adler-32 included — and whatever follows the
+stream is returned untouched.  So every blob the tie hands to the real library in direction 2
+(`Spec.encode` + `Stored.frame`) is, provably, a well-formed zlib stream of exactly that payload
+according to the independent decoder. -/
+
+theorem C02_inflate_stored (x r : Bytes) : Zlib.inflate (Zlib.deflateStored x ++ r) = some (x, r) :=
+  Zlib.inflate_deflateStored x r
+
+/-- With the 4-byte big-endian length prefix (payloads below 4 GiB: the prefix is 32 bits). -/
+theorem C02_unframe_frame (x : Bytes) (h : x.length < 4294967296) : Zlib.unframe (Zlib.frame x) = some x :=
+  Zlib.unframe_frame x h
+
+example : ([1, 2, 3] : Bytes).length < 4294967296 := by decide
 
 end EngineModel.Properties.C02
